@@ -201,7 +201,7 @@ Qed.
 (* the casts: an execution fee of 2^63 makes the cover check vacuous; two fees that sum to 2^64
    wrap to zero *)
 Definition ovf_cfg (ex : list (string * (Z * Z))) : fcfg :=
-  mkCfg (mkFilt "ukex" (mkBW [] []) false false 1 1 [] 1000) [mkToken "ukex" PREC true] false 100 1000000 ex.
+  mkCfg (mkFilt "ukex" (mkBW [] []) false false 1 1 [] 1000) [mkToken "ukex" PREC true] false 100 1000000 ex [] 0.
 
 Lemma fee_overflow_refuted :
   exists c fee ms, validate_fee c fee ms = Ok tt /\ ~ (spec_cover c ms * PREC <= spec_value c fee).
@@ -383,23 +383,23 @@ Lemma register_execs_app : forall c ms execs, exists l, register_execs c execs m
 Proof.
   induction ms as [|m r IH]; intros execs; simpl; [exists []; rewrite app_nil_r; reflexivity|].
   destruct (find_exec (c_exec c) (msg_type m)).
-  - destruct (IH (execs ++ [(msg_type m, hd ""%string (msg_signers m))])) as [l Hl]. rewrite Hl, <- app_assoc. eexists; reflexivity.
+  - destruct (IH (execs ++ [(msg_type m, hd ""%string (msg_signers m), false)])) as [l Hl]. rewrite Hl, <- app_assoc. eexists; reflexivity.
   - apply IH.
 Qed.
 
 (* ---------------------------------------------------------------- the ante chain as a whole *)
-Definition payer_of (t : tx) : string := hd ""%string (tx_signers (t_msgs t)).
-
 (* what the admission of a transaction does, and nothing else *)
 Record admission (sh : shape) (wired : bool) (c : fcfg) (s : st) (t : tx) (s' : st) : Prop := {
   adm_fee : validate_fee c (t_fee t) (t_msgs t) = Ok tt;
   adm_filters : poor_check sh (c_filt c) (t_msgs t) = Ok tt /\ bw_loop sh (c_filt c) (t_msgs t) = Ok tt;
   adm_sig : t_sig_ok t = true;
+  adm_custody : custody_check c (t_msgs t) = Ok tt;
+  adm_gas : 0 < t_gas t /\ t_granter t = false;
   adm_marks : s_marks s' = s_marks s;
   adm_exec : exists l, s_exec s' = s_exec s ++ l;
   adm_hist_unwired : wired = false -> s_hist s' = s_hist s;
   adm_hist_others : forall a, a <> payer_of t -> hist_of s' a = hist_of s a;
-  adm_accts : forall a, ~ In a (tx_signers (t_msgs t)) -> get_acct s' a = get_acct s a;
+  adm_accts : forall a, ~ In a (tx_signers t) -> get_acct s' a = get_acct s a;
   adm_payer_bal : payer_of t <> collector -> forall d, bal s' (payer_of t) d = bal s (payer_of t) d - amt_of (t_fee t) d;
   adm_collector_bal : payer_of t <> collector -> forall d, bal s' collector d = bal s collector d + amt_of (t_fee t) d;
   adm_other_bal : payer_of t <> collector -> forall a d, a <> payer_of t -> a <> collector -> bal s' a d = bal s a d
@@ -408,13 +408,17 @@ Record admission (sh : shape) (wired : bool) (c : fcfg) (s : st) (t : tx) (s' : 
 Lemma ante_admission : forall sh wired c s t s', ante sh wired c s t = Ok s' -> admission sh wired c s t s'.
 Proof.
   intros sh wired c s t s' H. unfold ante in H.
-  destruct (tx_signers (t_msgs t)) as [|payer rest] eqn:Sg; [discriminate|].
-  remember (payer :: rest) as sg eqn:Esg.
+  destruct (tx_signers t) as [|p0 rest] eqn:Sg; [discriminate|].
+  remember (p0 :: rest) as sg eqn:Esg.
+  remember (payer_of t) as payer eqn:Ep.
   destruct (is_nil (t_msgs t) || negb (forallb msg_valid (t_msgs t)))%bool; [discriminate|].
+  destruct (custody_check c (t_msgs t)) as [[]| |] eqn:CU; cbn [bind] in H; try discriminate.
   destruct (existsb (fun x => snd x <? 0) (t_fee t)); [discriminate|].
   destruct (negb (Nat.eqb (List.length (t_seqs t)) (List.length sg))); [discriminate|].
   destruct (validate_fee c (t_fee t) (t_msgs t)) as [[]| |] eqn:V; cbn [bind] in H; try discriminate.
   destruct (negb (forallb (has_acct s) sg)); [discriminate|].
+  destruct (t_gas t <=? 0) eqn:Gas; [discriminate|].
+  destruct (t_granter t) eqn:Gr; [discriminate|].
   destruct (deduct wired (set_pubkeys s sg) payer (t_fee t)) as [s2| |] eqn:D; cbn [bind] in H; try discriminate.
   destruct (poor_check sh (c_filt c) (t_msgs t)) as [[]| |] eqn:P; cbn [bind] in H; try discriminate.
   destruct (bw_loop sh (c_filt c) (t_msgs t)) as [[]| |] eqn:B; cbn [bind] in H; try discriminate.
@@ -432,11 +436,13 @@ Proof.
   assert (Hh0 : forall a, hist_of (set_pubkeys s sg) a = hist_of s a) by (intros; unfold hist_of; rewrite Ph; reflexivity).
   assert (Hh1 : forall a, hist_of s' a = hist_of s2 a) by (intros; subst s'; unfold hist_of; rewrite Ih, E3h; reflexivity).
   destruct (deduct_rest _ _ _ _ _ D) as [Da [De [Dm [Dh Dho]]]].
-  assert (Hp : payer_of t = payer) by (unfold payer_of; rewrite Sg, Esg; reflexivity).
-  constructor; rewrite ?Hp.
+  subst payer.
+  constructor.
   - exact V.
   - auto.
   - exact Sig.
+  - exact CU.
+  - split; [lia | exact Gr].
   - subst s'. rewrite Im, E3m, Dm. exact Pm.
   - subst s'. rewrite Ie, E3e, De, Pe. apply register_execs_app.
   - intros W. subst s'. rewrite Ih, E3h, (Dh W). exact Ph.
@@ -452,32 +458,34 @@ Proof.
 Qed.
 
 (* ---------------------------------------------------------------- runTx *)
-Lemma run_tx_failed : forall sh wired c s t s',
-  run_tx sh wired c s t = (s', TxMsgFailed) -> ante sh wired c s t = Ok s'.
+Definition msgs_failed (r : tx_result) : Prop := r = TxMsgFailed \/ r = TxMsgPanic.
+
+Lemma run_tx_failed : forall sh wired post c s t s' r,
+  run_tx sh wired post c s t = (s', r) -> msgs_failed r -> ante sh wired c s t = Ok s'.
 Proof.
-  intros sh wired c s t s' H. unfold run_tx in H.
-  destruct (ante sh wired c s t) as [s1| |]; [|inversion H|inversion H].
-  destruct (run_msgs s1 (t_msgs t)); inversion H; reflexivity.
+  intros sh wired post c s t s' r H Hr. unfold run_tx in H.
+  destruct (ante sh wired c s t) as [s1| |]; [|inversion H; subst; destruct Hr; discriminate|inversion H; subst; destruct Hr; discriminate].
+  destruct (run_msgs _ _ s1 (t_msgs t)); inversion H; subst; try reflexivity. destruct Hr; discriminate.
 Qed.
 
-Lemma run_tx_rejected : forall sh wired c s t s' r,
-  run_tx sh wired c s t = (s', r) -> r = TxAnteRejected \/ r = TxAntePanic -> s' = s.
+Lemma run_tx_rejected : forall sh wired post c s t s' r,
+  run_tx sh wired post c s t = (s', r) -> r = TxAnteRejected \/ r = TxAntePanic -> s' = s.
 Proof.
-  intros sh wired c s t s' r H Hr. unfold run_tx in H.
+  intros sh wired post c s t s' r H Hr. unfold run_tx in H.
   destruct (ante sh wired c s t) as [s1| |]; [|inversion H; reflexivity|inversion H; reflexivity].
-  destruct (run_msgs s1 (t_msgs t)); inversion H; subst; destruct Hr; discriminate.
+  destruct (run_msgs _ _ s1 (t_msgs t)); inversion H; subst; destruct Hr; discriminate.
 Qed.
 
-Lemma run_tx_admitted : forall sh wired c s t s' r,
-  run_tx sh wired c s t = (s', r) -> r = TxOk \/ r = TxMsgFailed -> exists s1, ante sh wired c s t = Ok s1.
+Lemma run_tx_admitted : forall sh wired post c s t s' r,
+  run_tx sh wired post c s t = (s', r) -> r = TxOk \/ msgs_failed r -> exists s1, ante sh wired c s t = Ok s1.
 Proof.
-  intros sh wired c s t s' r H Hr. unfold run_tx in H.
-  destruct (ante sh wired c s t) as [s1| |]; [eexists; reflexivity| |]; inversion H; subst; destruct Hr; discriminate.
+  intros sh wired post c s t s' r H Hr. unfold run_tx in H.
+  destruct (ante sh wired c s t) as [s1| |]; [eexists; reflexivity| |]; inversion H; subst; destruct Hr as [Hr|[Hr|Hr]]; discriminate.
 Qed.
 
-(* a transaction whose messages fail leaves exactly the admission bookkeeping *)
-Lemma failed_msgs_no_trace : forall sh wired c s t s',
-  run_tx sh wired c s t = (s', TxMsgFailed) -> admission sh wired c s t s'.
+(* a transaction whose messages fail (error or panic) leaves exactly the admission bookkeeping *)
+Lemma failed_msgs_no_trace : forall sh wired post c s t s' r,
+  run_tx sh wired post c s t = (s', r) -> msgs_failed r -> admission sh wired c s t s'.
 Proof. intros. apply ante_admission. eapply run_tx_failed; eauto. Qed.
 
 (* ---------------------------------------------------------------- pay-back loop *)
@@ -615,7 +623,7 @@ Definition expected_chain : list string :=
    "PoorNetworkManagementDecorator"; "BlackWhiteTokensCheckDecorator"; "ExecutionFeeRegistrationDecorator";
    "SigGasConsumeDecorator"; "SigVerificationDecorator"; "IncrementSequenceDecorator"]%string.
 
-Lemma gen_chain_ok : gen_errors = [] /\ ante_chain = expected_chain /\ gen_post_handler_installed = false.
+Lemma gen_chain_ok : gen_errors = [] /\ ante_chain = expected_chain.
 Proof. vm_compute. auto. Qed.
 
 (* ---------------------------------------------------------------- signers *)
@@ -637,16 +645,17 @@ Proof.
   - apply IH; [assumption | intro; apply H0; right; assumption].
 Qed.
 
-Lemma tx_signers_NoDup : forall ms, NoDup (tx_signers ms).
+Lemma tx_signers_NoDup : forall t, NoDup (tx_signers t).
 Proof. intros. apply dedup_add_NoDup. constructor. Qed.
 
-(* the payer is the first signer of the first message *)
+(* without an explicit fee payer, the payer is the first signer of the first message *)
 Lemma payer_first_signer : forall t,
-  forallb msg_valid (t_msgs t) = true -> t_msgs t <> [] -> payer_of t = first_signer (t_msgs t).
+  forallb msg_valid (t_msgs t) = true -> t_msgs t <> [] -> payer_of t = spec_payer t.
 Proof.
-  intros t V N. unfold payer_of, tx_signers, first_signer.
+  intros t V N. unfold payer_of, spec_payer. destruct (String.eqb (t_payer t) ""); [|reflexivity].
+  unfold tx_signers, first_signer.
   destruct (t_msgs t) as [|m r]; [contradiction|]. simpl in V. apply Bool.andb_true_iff in V. destruct V as [V _].
-  simpl. destruct m as [f ? ?|f ? ?|f ? ? ?|ty ss fl mk]; simpl; try apply dedup_add_hd.
+  simpl. destruct m as [f ? ?|f ? ?|f ? ? ?|f ? ?|ty ss fl mk]; simpl; try apply dedup_add_hd.
   simpl in V. destruct ss as [|x ss]; [discriminate|]. simpl. apply dedup_add_hd.
 Qed.
 
@@ -689,19 +698,22 @@ Qed.
 (* admission increments the sequence of every signer exactly once and records its public key *)
 Lemma ante_signers : forall sh wired c s t s',
   ante sh wired c s t = Ok s' ->
-  forall a, In a (tx_signers (t_msgs t)) ->
+  forall a, In a (tx_signers t) ->
   exists ac, get_acct s a = Some ac /\ get_acct s' a = Some (mkAcct (a_seq ac + 1) true).
 Proof.
   intros sh wired c s t s' H a Hin. unfold ante in H.
-  pose proof (tx_signers_NoDup (t_msgs t)) as ND.
-  destruct (tx_signers (t_msgs t)) as [|payer rest] eqn:Sg; [discriminate|].
-  remember (payer :: rest) as sg eqn:Esg.
+  pose proof (tx_signers_NoDup t) as ND.
+  destruct (tx_signers t) as [|p0 rest] eqn:Sg; [discriminate|].
+  remember (p0 :: rest) as sg eqn:Esg.
   destruct (is_nil (t_msgs t) || negb (forallb msg_valid (t_msgs t)))%bool; [discriminate|].
+  destruct (custody_check c (t_msgs t)) as [[]| |]; cbn [bind] in H; try discriminate.
   destruct (existsb (fun x => snd x <? 0) (t_fee t)); [discriminate|].
   destruct (negb (Nat.eqb (List.length (t_seqs t)) (List.length sg))); [discriminate|].
   destruct (validate_fee c (t_fee t) (t_msgs t)) as [[]| |]; cbn [bind] in H; try discriminate.
   destruct (forallb (has_acct s) sg) eqn:HA; cbn [negb] in H; [|discriminate].
-  destruct (deduct wired (set_pubkeys s sg) payer (t_fee t)) as [s2| |] eqn:D; cbn [bind] in H; try discriminate.
+  destruct (t_gas t <=? 0); [discriminate|].
+  destruct (t_granter t); [discriminate|].
+  destruct (deduct wired (set_pubkeys s sg) (payer_of t) (t_fee t)) as [s2| |] eqn:D; cbn [bind] in H; try discriminate.
   destruct (poor_check sh (c_filt c) (t_msgs t)) as [[]| |]; cbn [bind] in H; try discriminate.
   destruct (bw_loop sh (c_filt c) (t_msgs t)) as [[]| |]; cbn [bind] in H; try discriminate.
   remember (set_exec s2 (register_execs c (s_exec s2) (t_msgs t))) as s3 eqn:Es3.
@@ -724,7 +736,7 @@ Lemma chk_fee_sound : forall sh wired c s t s',
   ++ flag (spec_cover c (t_msgs t) * PREC <=? spec_value c (t_fee t))
           (if two63 <=? spec_cover c (t_msgs t) then "fee_cover:execution-fee-sum>=2^63" else "fee_cover") = [].
 Proof.
-  intros sh wired c s t s' H G. apply ante_admission in H. destruct H as [V _ _ _ _ _ _ _ _ _ _].
+  intros sh wired c s t s' H G. apply ante_admission in H. destruct H as [V _ _ _ _ _ _ _ _ _ _ _ _].
   apply (fee_accept_spec c _ _ G) in V. destruct V as [V1 [V2 V3]].
   rewrite V1. assert ((c_min_fee c * PREC <=? spec_value c (t_fee t)) && (spec_value c (t_fee t) <=? c_max_fee c * PREC) = true)%bool as -> by lia.
   assert (spec_cover c (t_msgs t) * PREC <=? spec_value c (t_fee t) = true) as -> by lia. reflexivity.
@@ -734,22 +746,22 @@ Lemma ante_msgs_valid : forall sh wired c s t s',
   ante sh wired c s t = Ok s' -> forallb msg_valid (t_msgs t) = true /\ t_msgs t <> [].
 Proof.
   intros sh wired c s t s' H. unfold ante in H.
-  destruct (tx_signers (t_msgs t)); [discriminate|].
+  destruct (tx_signers t); [discriminate|].
   destruct (t_msgs t) as [|m r] eqn:E; [simpl in H; discriminate|].
   destruct (forallb msg_valid (m :: r)); [split; [reflexivity | discriminate]|]. simpl in H. discriminate.
 Qed.
 
 (* the "charge:failed" clause: the balance changes of a transaction whose messages failed are
    exactly the ones the checker expects (fee out of the first signer, into the collector) *)
-Lemma chk_charge_failed_sound : forall sh wired c s t s',
-  run_tx sh wired c s t = (s', TxMsgFailed) -> payer_of t <> collector ->
-  forall a d, bal s' a d - bal s a d = expected_delta (t_fee t) (t_msgs t) false a d.
+Lemma chk_charge_failed_sound : forall sh wired post c s t s' r,
+  run_tx sh wired post c s t = (s', r) -> msgs_failed r -> payer_of t <> collector ->
+  forall a d, bal s' a d - bal s a d = expected_delta c t false a d.
 Proof.
-  intros sh wired c s t s' H Hne a d. apply run_tx_failed in H.
-  destruct (ante_msgs_valid _ _ _ _ _ _ H) as [V N].
+  intros sh wired post c s t s' r H Hr Hne a d. apply (run_tx_failed _ _ _ _ _ _ _ _ H) in Hr.
+  destruct (ante_msgs_valid _ _ _ _ _ _ Hr) as [V N].
   pose proof (payer_first_signer t V N) as Hp.
-  destruct (charged_exactly _ _ _ _ _ _ H Hne d) as [Bp [Bc Bo]].
-  unfold expected_delta. rewrite <- Hp.
+  destruct (charged_exactly _ _ _ _ _ _ Hr Hne d) as [Bp [Bc Bo]].
+  unfold expected_delta. cbv zeta. rewrite <- Hp.
   destruct (String.eqb_spec a (payer_of t)) as [->|Hap].
   - assert (String.eqb (payer_of t) collector = false) as -> by (apply String.eqb_neq; exact Hne). rewrite Bp. lia.
   - destruct (String.eqb_spec a collector) as [->|Hac].
@@ -935,4 +947,215 @@ Proof.
   assert (I0 : hinv []) by (split; [intros c [] | constructor]).
   destruct (hist_run_inv ts ops [] [] [] h paid refd Hr Hops I0 (fun _ => eq_refl) H) as [I1 I2].
   pose proof (hinv_amt_nonneg h I1 d). rewrite I2 in H0. lia.
+Qed.
+
+(* ---------------------------------------------------------------- the refund path is dead while unwired *)
+(* With the plain bank keeper handed to the fee deduction ([wired = false]) no payment history is
+   ever recorded, so every end-of-block return pays back nothing -- whatever the post handler does. *)
+Definition no_history (s : st) : Prop := forall a, hist_of s a = [].
+
+Lemma ensure_acct_frame : forall s a, s_bal (ensure_acct s a) = s_bal s /\ s_hist (ensure_acct s a) = s_hist s.
+Proof. intros. unfold ensure_acct. destruct (has_acct s a); simpl; auto. Qed.
+
+Lemma bank_send_hist : forall s f t cs s', bank_send s f t cs = Ok s' -> s_hist s' = s_hist s.
+Proof.
+  intros s f t cs s' H. unfold bank_send in H.
+  destruct (sub_coins s f cs) as [s1| |] eqn:S; simpl in H; try discriminate. inversion H. subst s'.
+  apply sub_coins_spec in S. destruct S as [R1 _]. apply rest_of_eq in R1.
+  destruct (add_coins_spec cs s1 t) as [R2 _]. apply rest_of_eq in R2.
+  destruct (ensure_acct_frame (add_coins s1 t cs) t) as [_ E]. rewrite E. intuition congruence.
+Qed.
+
+Lemma run_msg_hist : forall n cu s m s', run_msg n cu s m = Ok s' -> s_hist s' = s_hist s.
+Proof.
+  intros n cu s m s' H. destruct m as [f t a|f inp outs|f t a rw|f t v|ty ss fl mk]; simpl in H.
+  - destruct (String.eqb t collector); [discriminate | eapply bank_send_hist; eauto].
+  - destruct (existsb (fun o => String.eqb (fst o) collector) outs); [discriminate|].
+    destruct (sub_coins s f inp) as [s1| |] eqn:S; simpl in H; try discriminate. inversion H. subst s'. clear H.
+    apply sub_coins_spec in S. destruct S as [R1 _]. apply rest_of_eq in R1. destruct R1 as [_ [_ [R1 _]]]. rewrite <- R1. clear R1.
+    generalize s1. induction outs as [|o r IH]; intros x; simpl; [reflexivity|]. rewrite IH.
+    destruct (ensure_acct_frame (add_coins x (fst o) (snd o)) (fst o)) as [_ E]. rewrite E.
+    destruct (add_coins_spec (snd o) x (fst o)) as [R2 _]. apply rest_of_eq in R2. intuition congruence.
+  - destruct (String.eqb t collector); [discriminate|].
+    destruct (lookup_cust cu f) as [k|]; [|eapply bank_send_hist; eauto].
+    destruct (cu_enabled k); [|eapply bank_send_hist; eauto].
+    destruct (cu_custodians k) as [nn|]; [|discriminate].
+    destruct (0 <? nn); [inversion H; reflexivity | eapply bank_send_hist; eauto].
+  - destruct (0 <? v); [eapply bank_send_hist; eauto | discriminate].
+  - destruct fl; [discriminate | inversion H; reflexivity].
+Qed.
+
+Lemma run_msgs_hist : forall n cu ms s s', run_msgs n cu s ms = Ok s' -> s_hist s' = s_hist s.
+Proof.
+  induction ms as [|m r IH]; intros s s' H; simpl in H; [inversion H; reflexivity|].
+  destruct (run_msg n cu s m) as [s1| |] eqn:M; simpl in H; try discriminate.
+  rewrite (IH _ _ H). eapply run_msg_hist; eauto.
+Qed.
+
+Lemma run_tx_no_history : forall sh post c s t s' r,
+  no_history s -> run_tx sh false post c s t = (s', r) -> no_history s'.
+Proof.
+  intros sh post c s t s' r N H. unfold run_tx in H.
+  destruct (ante sh false c s t) as [s1| |] eqn:A; [|inversion H; subst; exact N|inversion H; subst; exact N].
+  apply ante_admission in A. destruct A as [_ _ _ _ _ _ _ Hh _ _ _ _ _]. specialize (Hh eq_refl).
+  assert (N1 : no_history s1) by (intros a; unfold hist_of; rewrite Hh; apply N).
+  destruct (run_msgs _ _ s1 (t_msgs t)) as [s2| |] eqn:M; inversion H; subst; try exact N1.
+  apply run_msgs_hist in M. intros a. unfold hist_of. destruct post; simpl; rewrite M; apply N1.
+Qed.
+
+Lemma payback_empty : forall ts amt pb, payback ts [] amt = Ok pb -> pb = [].
+Proof.
+  intros ts amt pb H. unfold payback in H. destruct (rate_value ts amt 0); simpl in H; try discriminate. inversion H. reflexivity.
+Qed.
+
+Lemma refund_no_history : forall c s a amt s',
+  no_history s -> refund c s a amt = Ok s' -> no_history s' /\ forall x d, bal s' x d = bal s x d.
+Proof.
+  intros c s a amt s' N H. unfold refund in H. rewrite (N a) in H.
+  destruct (payback (c_tokens c) [] amt) as [pb| |] eqn:P; simpl in H; try discriminate.
+  apply payback_empty in P. subst pb. simpl in H.
+  destruct (String.eqb a collector); [discriminate|]. simpl in H. inversion H. subst s'. clear H.
+  match goal with |- context [ensure_acct ?X ?Y] => destruct (ensure_acct_frame X Y) as [Eb Eh] end. split.
+  - intros x. unfold hist_of. rewrite Eh. simpl. destruct (String.eqb a x); [reflexivity | apply N].
+  - intros x d. unfold bal. rewrite Eb. reflexivity.
+Qed.
+
+Lemma process_returns_no_history : forall c execs s s',
+  no_history s -> process_returns c s execs = Ok s' -> no_history s' /\ forall x d, bal s' x d = bal s x d.
+Proof.
+  induction execs as [|[[ty payer] ok] r IH]; intros s s' N H; simpl in H; [inversion H; subst; auto|].
+  destruct (find_exec (c_exec c) ty) as [[e f]|]; [|apply IH; assumption].
+  match type of H with (if ?b then _ else _) = _ => destruct b end; [|apply IH; assumption].
+  destruct (refund c s payer _) as [s1| |] eqn:R; try discriminate.
+  destruct (refund_no_history _ _ _ _ _ N R) as [N1 B1].
+  destruct (IH _ _ N1 H) as [N2 B2]. split; [exact N2|]. intros x d. rewrite B2. apply B1.
+Qed.
+
+(* the end of a block returns nothing to anybody *)
+Lemma end_block_neutral : forall c s s',
+  no_history s -> end_block c s = Ok s' -> no_history s' /\ forall x d, bal s' x d = bal s x d.
+Proof.
+  intros c s s' N H. unfold end_block in H.
+  destruct (process_returns c s (s_exec s)) as [s1| |] eqn:P; simpl in H; try discriminate. inversion H. subst s'.
+  destruct (process_returns_no_history _ _ _ _ N P) as [N1 B1]. split; [exact N1 | exact B1].
+Qed.
+
+(* whole chains: blocks of transactions, each followed by its end block *)
+Fixpoint run_blocks (sh : shape) (wired post : bool) (c : fcfg) (s : st) (bs : list (list tx)) : outcome st :=
+  match bs with
+  | [] => Ok s
+  | b :: r => do s2 <- end_block c (fold_left (fun x t => fst (run_tx sh wired post c x t)) b s); run_blocks sh wired post c s2 r
+  end.
+
+Lemma txs_no_history : forall sh post c b s, no_history s -> no_history (fold_left (fun x t => fst (run_tx sh false post c x t)) b s).
+Proof.
+  induction b as [|t r IH]; intros s N; simpl; [exact N|]. apply IH.
+  destruct (run_tx sh false post c s t) as [s1 res] eqn:R. simpl. eapply run_tx_no_history; eauto.
+Qed.
+
+Lemma refund_path_dead : forall sh post c bs s s',
+  no_history s -> run_blocks sh false post c s bs = Ok s' -> no_history s'.
+Proof.
+  induction bs as [|b r IH]; intros s s' N H; simpl in H; [inversion H; subst; exact N|].
+  destruct (end_block c _) as [s2| |] eqn:E; simpl in H; try discriminate.
+  apply end_block_neutral in E; [|apply txs_no_history; exact N]. destruct E as [N2 _]. eapply IH; eauto.
+Qed.
+
+(* ---------------------------------------------------------------- "charge:delivered": effect of the messages *)
+Lemma sum_for_cons : forall x l a d, sum_for (x :: l) a d = (if String.eqb (fst x) a then amt_of (snd x) d else 0) + sum_for l a d.
+Proof. reflexivity. Qed.
+Lemma sum_for_app : forall l m a d, sum_for (l ++ m) a d = sum_for l a d + sum_for m a d.
+Proof. induction l as [|x l IH]; intros; [reflexivity|]. simpl app. rewrite !sum_for_cons, IH. lia. Qed.
+
+Lemma bal_ensure_acct : forall s a x d, bal (ensure_acct s a) x d = bal s x d.
+Proof. intros. unfold bal. destruct (ensure_acct_frame s a) as [E _]. rewrite E. reflexivity. Qed.
+
+Lemma bank_send_delta : forall s f t cs s', bank_send s f t cs = Ok s' ->
+  forall a d, bal s' a d = bal s a d + (if String.eqb t a then amt_of cs d else 0) - (if String.eqb f a then amt_of cs d else 0).
+Proof.
+  intros s f t cs s' H a d. unfold bank_send in H.
+  destruct (sub_coins s f cs) as [s1| |] eqn:S; simpl in H; try discriminate. inversion H. subst s'. clear H.
+  apply sub_coins_spec in S. destruct S as [_ [B1 O1]]. destruct (add_coins_spec cs s1 t) as [_ [B2 O2]].
+  rewrite bal_ensure_acct.
+  destruct (String.eqb_spec t a) as [->|Ht].
+  - rewrite B2. destruct (String.eqb_spec f a) as [->|Hf]; [rewrite B1 | rewrite O1 by auto]; lia.
+  - rewrite O2 by auto. destruct (String.eqb_spec f a) as [->|Hf]; [rewrite B1 | rewrite O1 by auto]; lia.
+Qed.
+
+Lemma lookup_cust_find : forall l a,
+  lookup_cust l a = match find (fun e : string * cust => String.eqb (fst e) a) l with Some (_, k) => Some k | None => None end.
+Proof. induction l as [|[k v] l IH]; intros a; simpl; [reflexivity|]. destruct (String.eqb k a); auto. Qed.
+
+Definition msg_delta (c : fcfg) (m : msg) (a d : string) : Z :=
+  if parked c m then 0
+  else sum_for (transfers (f_native (c_filt c)) m) a d - sum_for (sent_by (f_native (c_filt c)) m) a d.
+
+Lemma run_msg_delta : forall c s m s',
+  run_msg (f_native (c_filt c)) (c_custody c) s m = Ok s' ->
+  forall a d, bal s' a d = bal s a d + msg_delta c m a d.
+Proof.
+  intros c s m s' H a d. unfold msg_delta.
+  destruct m as [f t cs|f inp outs|f t cs rw|f t v|ty ss fl mk]; simpl in H.
+  - destruct (String.eqb t collector); [discriminate|]. rewrite (bank_send_delta _ _ _ _ _ H). simpl.
+    unfold sum_for. simpl. lia.
+  - destruct (existsb (fun o => String.eqb (fst o) collector) outs); [discriminate|].
+    destruct (sub_coins s f inp) as [s1| |] eqn:S; simpl in H; try discriminate. inversion H. subst s'. clear H.
+    apply sub_coins_spec in S. destruct S as [_ [B1 O1]].
+    assert (F : forall x, bal (fold_left (fun x o => ensure_acct (add_coins x (fst o) (snd o)) (fst o)) outs x) a d = bal x a d + sum_for outs a d).
+    { induction outs as [|o r IH]; intros x; simpl; [unfold sum_for; simpl; lia|].
+      rewrite IH, bal_ensure_acct, sum_for_cons. destruct (add_coins_spec (snd o) x (fst o)) as [_ [B2 O2]].
+      destruct (String.eqb_spec (fst o) a) as [<-|Hn]; [rewrite B2 | rewrite O2 by auto]; lia. }
+    rewrite F. simpl. unfold sum_for. simpl.
+    destruct (String.eqb_spec f a) as [->|Hf]; [rewrite B1 | rewrite O1 by auto]; lia.
+  - destruct (String.eqb t collector); [discriminate|]. simpl parked. rewrite lookup_cust_find in H.
+    destruct (find (fun e => String.eqb (fst e) f) (c_custody c)) as [[k0 k]|].
+    + destruct (cu_enabled k); simpl.
+      * destruct (cu_custodians k) as [nn|]; [|discriminate].
+        destruct (0 <? nn); [inversion H; subst; unfold bal; simpl; lia|].
+        rewrite (bank_send_delta _ _ _ _ _ H). unfold sum_for. simpl. lia.
+      * rewrite (bank_send_delta _ _ _ _ _ H). unfold sum_for. simpl. lia.
+    + rewrite (bank_send_delta _ _ _ _ _ H). unfold sum_for. simpl. lia.
+  - destruct (0 <? v); [|discriminate]. rewrite (bank_send_delta _ _ _ _ _ H). simpl. unfold sum_for. simpl.
+    destruct (String.eqb (f_native (c_filt c)) d); lia.
+  - destruct fl; [discriminate|]. inversion H. subst. unfold bal. simpl. unfold sum_for. simpl. lia.
+Qed.
+
+Lemma run_msgs_delta : forall c ms s s',
+  run_msgs (f_native (c_filt c)) (c_custody c) s ms = Ok s' ->
+  forall a d, bal s' a d = bal s a d + zsum (map (fun m => msg_delta c m a d) ms).
+Proof.
+  induction ms as [|m r IH]; intros s s' H a d; simpl in H; [inversion H; simpl; lia|].
+  destruct (run_msg _ _ s m) as [s1| |] eqn:M; simpl in H; try discriminate.
+  rewrite (IH _ _ H), (run_msg_delta _ _ _ _ M). simpl. lia.
+Qed.
+
+Lemma msgs_delta_expected : forall c ms a d,
+  zsum (map (fun m => msg_delta c m a d) ms)
+  = sum_for (flat_map (transfers (f_native (c_filt c))) (filter (fun m => negb (parked c m)) ms)) a d
+    - sum_for (flat_map (sent_by (f_native (c_filt c))) (filter (fun m => negb (parked c m)) ms)) a d.
+Proof.
+  induction ms as [|m r IH]; intros a d; simpl; [reflexivity|].
+  rewrite IH. unfold msg_delta. destruct (parked c m); simpl; [lia|]. rewrite !sum_for_app. lia.
+Qed.
+
+(* the "charge:delivered" clause: the balance changes of a delivered transaction are exactly the
+   fee plus the transfers its messages ask for *)
+Lemma chk_charge_delivered_sound : forall sh wired post c s t s',
+  run_tx sh wired post c s t = (s', TxOk) -> payer_of t <> collector ->
+  forall a d, bal s' a d - bal s a d = expected_delta c t true a d.
+Proof.
+  intros sh wired post c s t s' H Hne a d. unfold run_tx in H.
+  destruct (ante sh wired c s t) as [s1| |] eqn:A; try (inversion H; fail).
+  destruct (run_msgs _ _ s1 (t_msgs t)) as [s2| |] eqn:M; inversion H. subst s'. clear H.
+  destruct (ante_msgs_valid _ _ _ _ _ _ A) as [V N].
+  pose proof (payer_first_signer t V N) as Hp.
+  destruct (charged_exactly _ _ _ _ _ _ A Hne d) as [Bp [Bc Bo]].
+  assert (Hb : bal (if post then set_exec s2 (mark_success c (s_exec s2) (t_msgs t)) else s2) a d = bal s2 a d) by (destruct post; reflexivity).
+  rewrite Hb, (run_msgs_delta _ _ _ _ M), msgs_delta_expected.
+  unfold expected_delta. cbv zeta. rewrite <- Hp.
+  destruct (String.eqb_spec a (payer_of t)) as [->|Hap].
+  - assert (String.eqb (payer_of t) collector = false) as -> by (apply String.eqb_neq; exact Hne). rewrite Bp. lia.
+  - destruct (String.eqb_spec a collector) as [->|Hac].
+    + rewrite Bc. lia.
+    + rewrite Bo by assumption. lia.
 Qed.
